@@ -132,7 +132,7 @@ func (c *Ctx) setMapOrders(want bool, quick []int) {
 		c.orders = quick
 	}
 	if c.Tier == "thorough" {
-		c.orders = []int{vmap.Descending, vmap.Alternating, vmap.Rotated, vmap.AlternatingOdd}
+		c.orders = []int{vmap.Descending, vmap.Alternating, vmap.Rotated}
 	}
 	c.res.Bounds["map-iteration-order"] = fmt.Sprintf("every case is run under %d map iteration orders (ascending + %s) at the %d rewritten range statements of the library", 1+len(c.orders), orderNames(c.orders), vmap.Sites)
 }
